@@ -36,7 +36,8 @@ func Division(left, right value.Value) error {
 				return errors.WithStack(fmt.Errorf("FLOAT literal could not divide to INTEGER"))
 			}
 			rv := value.Unwrap[*value.Float](right)
-			if rv.Value == 0 {
+			// divisor is truncated to INTEGER so that the fraction less than 1 is also treated as zero
+			if int64(rv.Value) == 0 {
 				lv.IsNAN = true
 				return errors.WithStack(fmt.Errorf("division by zero"))
 			}
@@ -96,9 +97,16 @@ func Division(left, right value.Value) error {
 		switch right.Type() {
 		case value.IntegerType: // RTIME /= INTEGER
 			rv := value.Unwrap[*value.Integer](right)
+			if rv.Value == 0 {
+				return errors.WithStack(fmt.Errorf("division by zero"))
+			}
 			lv.Value /= time.Duration(rv.Value)
 		case value.FloatType: // RTIME /= FLOAT
 			rv := value.Unwrap[*value.Float](right)
+			// divisor is truncated to INTEGER so that the fraction less than 1 is also treated as zero
+			if time.Duration(rv.Value) == 0 {
+				return errors.WithStack(fmt.Errorf("division by zero"))
+			}
 			lv.Value /= time.Duration(rv.Value)
 		default:
 			return errors.WithStack(fmt.Errorf("invalid division RTIME type, got %s", right.Type()))
